@@ -54,9 +54,9 @@ Proof.
   set (S1 := apply_batch S b) in *.
   set (Wn := world_after Wo b) in *.
   rewrite B8 in B1, B2.
-  unfold analyse, analyse_gen.
+  unfold analyse, analyse_gen, prepare, analyzed_units.
   destruct (reset_gen_total true (a_maps (sast S1)) (added S1) (removed S1)) as [rr [Hrr Hall]].
-  rewrite Hrr. rewrite B8.
+  rewrite Hrr. cbv beta iota zeta. rewrite B8.
   assert (Hrr' : reset (a_maps (sast S)) (added S1) (removed S1) = Some rr) by (rewrite <- B5; exact Hrr).
   pose proof (reset_good Wo Wn N (sast S) (added S1) (removed S1) rr Hwfo B2 Hclo HA Htot B1 B3 B4 Hrr'
                 (a_memo (sast S1)) B6) as Hgood.
